@@ -348,8 +348,45 @@ let process_views line =
     | Some cs -> String.concat ";" (Stdlib.List.map show_svchange cs) in
   id ^ " " ^ obs ^ "\n"
 
+(* round 5: enum objects (DiffObjects.v) *)
+let process_objects line =
+  toks := Array.of_list (Stdlib.List.filter (fun s -> s <> "") (String.split_on_char ' ' line));
+  pos := 0;
+  let id = next () in
+  let _op = next () in
+  let _dialect = next () in
+  let mask = next_int () in
+  let parse_schema_o () =
+    let s = parse_schema () in
+    let n = next_int () in
+    let es = times n (fun () -> let t = next_str () in let nv = next_int () in let vs = times nv next_str in
+                                { e_T = t; e_values = vs }) in
+    { so_schema = s; so_enums = es } in
+  let from = parse_schema_o () in
+  let to_ = parse_schema_o () in
+  let oskip = function
+    | OtAddObject -> mask land 8192 <> 0
+    | OtDropObject -> mask land 16384 <> 0
+    | OtModifyObject -> mask land 32768 <> 0
+    | OtTag t -> skip_of_mask mask t in
+  let hexs vs = String.concat "," (Stdlib.List.map hexb vs) in
+  let show = function
+    | SOT c -> show_schange c
+    | SO (AddObject t) -> "+O(" ^ raw t ^ ")"
+    | SO (DropObject t) -> "-O(" ^ raw t ^ ")"
+    | SO (ModifyObject (t, v1, v2)) -> "~O(" ^ raw t ^ ")[" ^ hexs v1 ^ ">" ^ hexs v2 ^ "]" in
+  let obs = match pg_schema_diff_o [] oskip from to_ with
+    | None -> "err"
+    | Some [] -> "[]"
+    | Some cs -> String.concat ";" (Stdlib.List.map show cs) in
+  id ^ " " ^ obs ^ "\n"
+
 let () =
   let dialect = if Array.length Sys.argv > 1 then Sys.argv.(1) else "sqlite" in
+  if dialect = "objects" then begin
+    (try while true do let l = input_line stdin in if l <> "" then print_string (process_objects l) done with End_of_file -> ());
+    exit 0
+  end;
   if dialect = "views" then begin
     (try while true do let l = input_line stdin in if l <> "" then print_string (process_views l) done with End_of_file -> ());
     exit 0
